@@ -20,7 +20,10 @@ from .. import known
 ID = 'C19'
 LEVEL = 'exploration'
 RULE = (
-    'Hypothesis: file with one dimension (1-20 records), an independent '
+    'Enumerated in every run: rule-generated long files of 1023, 1024, 1025,'
+    ' 2049, 4100 records x 1-2 variables (ramp values, every 8th/9th cell '
+    'missing), same oracle.  Hypothesis: file with one dimension (1-20 '
+    'records), an independent '
     'variable (increasing seconds, at any position among the variables) and '
     '1-5 (in ~4% of cases 85-120, header of 100-140 lines) dependent '
     'variables (identifier names incl. name_unit forms, units '
@@ -225,6 +228,42 @@ def cases(draw, tier='quick'):
 
 def strategy(tier):
     return cases(tier)
+
+
+# long files, enumerated in every run: the spec only names the rule
+LONG_COUNTS = [1023, 1024, 1025, 2049, 4100]
+
+
+def enumerate_cases(tier):
+    counts = LONG_COUNTS + ([8193, 20000] if tier == 'thorough' else [])
+    for n in counts:
+        for ndep in (1, 2):
+            yield dict(gen=dict(nrec=n, ndep=ndep, missevery=7 + ndep,
+                                missing=-9999 if ndep == 1 else -99999.5),
+                       route='save' if ndep == 1 else 'func')
+
+
+def expand(spec):
+    """rule-generated long file -> full case spec: 1 Hz time ramp, dependent
+    variable k = (i+1)*(k+1)/4 + k/1000, every missevery-th cell (shifted
+    by k) masked"""
+    g = spec['gen']
+    n = int(g['nrec'])
+    deps = []
+    for k in range(int(g['ndep'])):
+        deps.append(dict(
+            name=['O3', 'NO2_ppbv'][k], unit=['ppbv', 'molec/(cm3 s)'][k],
+            missing=g['missing'], dtype='f8',
+            values=[(i + 1) * (k + 1) * 0.25 + k * 1e-3 for i in range(n)],
+            mask=[1 if (i + k) % int(g['missevery']) == 3 else 0
+                  for i in range(n)], build='masked'))
+    return dict(dim='POINTS',
+                indep=dict(name='Start_UTC', unit='seconds',
+                           values=[63481.0 + i for i in range(n)], pos=0,
+                           definition=True),
+                deps=deps, attrs=[['PLATFORM', 'NASA DC8'], ['REVISION', 'R0']],
+                head={'PI_NAME': 'Doe, J.'}, sdate='2004, 06, 26',
+                wdate='2005, 01, 12', route=spec.get('route', 'save'))
 
 
 # ------------------------------------------------------------------ build
@@ -443,6 +482,9 @@ def check_same(r, a, b, clause):
 
 def check_case(spec):
     r = Result()
+    if 'gen' in spec:
+        spec = expand(spec)
+        r.label('long-file', 'nrec=%d' % len(spec['indep']['values']))
     deps = spec['deps']
     n = len(spec['indep']['values'])
     for d in deps:
